@@ -382,8 +382,12 @@ def run_harness(prop, h, idx, binp, tier, seed, log, replay=None, timeout=None):
     hp = subprocess.Popen(cmd, cwd=cwd, env=env, stdout=subprocess.PIPE, stderr=subprocess.STDOUT, text=True,
                           errors="replace")
     # open the read end only after the writer exists; the driver reads the fifo as stdin
-    dp = subprocess.Popen(["/bin/sh", "-c", 'exec "$0" "$1" < "$2"', exe, machine, fifo], stdout=subprocess.PIPE,
-                          stderr=subprocess.STDOUT, text=True, errors="replace")
+    # the driver writes to a file, not a pipe: with many failing cases its output exceeds the pipe
+    # buffer and it would stop draining the fifo while we wait for the harness (deadlock)
+    dout_path = os.path.join(bdir, "%s.%d.drv.out" % (name, os.getpid()))
+    dout_f = open(dout_path, "w+")
+    dp = subprocess.Popen(["/bin/sh", "-c", 'exec "$0" "$1" < "$2"', exe, machine, fifo], stdout=dout_f,
+                          stderr=subprocess.STDOUT)
     try:
         hout, _ = hp.communicate(timeout=timeout)
         hrc = hp.returncode
@@ -399,12 +403,15 @@ def run_harness(prop, h, idx, binp, tier, seed, log, replay=None, timeout=None):
     except OSError:
         pass
     try:
-        dout, _ = dp.communicate(timeout=600)
-        drc = dp.returncode
+        drc = dp.wait(timeout=600)
     except subprocess.TimeoutExpired:
         dp.kill()
-        dout, _ = dp.communicate()
+        dp.wait()
         drc = 124
+    dout_f.seek(0)
+    dout = dout_f.read(64 << 20)
+    dout_f.close()
+    os.remove(dout_path)
     os.remove(fifo)
     stats = {}
     if os.path.exists(stats_path):
